@@ -1081,6 +1081,159 @@ def synth_known_class(s, kind="break"):
 
 
 # ------------------------------------------------------------------------------------------------
+# default ignorables inside the text: ot_shape.rs::hide_default_ignorables either turns them into the invisible (space)
+# glyph or — font without a glyph for U+0020, or REMOVE_DEFAULT_IGNORABLES — DELETES them after positioning through
+# buffer.rs::delete_glyphs_inplace, i.e. after the final reversal of a right-to-left run (descending clusters: the
+# "Merge cluster backward" branch hands the deleted glyph's flags to the run that takes over its cluster value).
+# Which flag an ignorable carries depends on how lookups treat it: ZWNJ is not skipped inside an input sequence, so a
+# ligature / context attempt that fails AT the ZWNJ flags a span ending on it; ZWJ and the other ignorables are skipped
+# (the span runs over them); in backtrack / lookahead all are skipped.
+
+DEFAULT_IGNORABLES = [0x200C] * 8 + [0x200D, 0x200D, 0x00AD, 0x034F, 0x2060, 0x200B, 0xFEFF, 0x061C, 0x180E]
+
+
+DI_RULE = ("synthetic GSUB fonts (tools/flagslib.py::di_recipe: 3-5 letters of Hebrew (3 in 4) / Latin; top-level ligature and single "
+           "substitutions, chaining contexts over them; 3 fonts in 4 WITHOUT a glyph for U+0020, so default ignorables are deleted by "
+           "delete_glyphs_inplace after positioning, i.e. after the final reversal of a right-to-left run) x texts of letters, of the "
+           "sequences the font's own lookups look for (whole / only the beginning / with an ignorable inside) and of default "
+           "ignorables (ZWNJ half of them; ZWJ, SHY, CGJ, WJ, ZWSP, BOM, ALM, MVS) after any chunk, several in a row, first x the "
+           "script's own direction (6 in 10) or l / r / t / b x levels 0/1 x PRESERVE / REMOVE_DEFAULT_IGNORABLES 1 in 6 each; ")
+
+
+def di_recipe(r):
+    """a fontbuild recipe: k letters of Latin / Hebrew (both native directions), a few extra glyphs; TOP-LEVEL ligature and
+    single substitutions plus chaining-context lookups (format 3, backtrack / lookahead) whose records call them; no
+    multi-glyph sequence, no deletion (so outside the classes deleted-flag-carrier / nested-delete-drift); 1 font in 4 has a
+    glyph for U+0020 (ignorables become invisible glyphs instead of being deleted), 1 in 4 real glyphs for ZWNJ / ZWJ"""
+    alpha = r.choice(["latin", "hebrew", "hebrew", "hebrew"])
+    first = ALPHABETS[alpha][0]
+    k = r.range(3, 5)
+    nx = r.range(2, 4)
+    n = 1 + k + nx
+    extra = list(range(k + 1, n))
+    cmap = {first + g - 1: g for g in range(1, k + 1)}
+    if r.chance(1, 4):
+        cmap[0x20] = n; n += 1
+    if r.chance(1, 4):
+        cmap[0x200C] = n; cmap[0x200D] = n + 1; n += 2
+    rec = {"num_glyphs": n, "cmap": cmap, "advances": [400 + 37 * g for g in range(n)]}
+    lookups = []
+    for _ in range(r.range(1, 3)):
+        if r.chance(2, 3):
+            cov = _letters_cov(r, k)
+            sets = [[{"components": [r.range(1, k) for _ in range(r.choice([1, 1, 2]))], "glyph": r.choice(extra)}
+                     for _ in range(r.range(1, 2))] for _ in cov]
+            lookups.append({"type": 4, "flag": 0, "subtables": [{"coverage": cov, "ligsets": sets}]})
+        else:
+            cov = _letters_cov(r, k)
+            lookups.append({"type": 1, "flag": 0, "subtables": [{"format": 2, "coverage": cov,
+                                                                 "subst": [r.range(1, n - 1) for _ in cov]}]})
+    nleaf = len(lookups)
+    top = list(range(nleaf)) if r.chance(3, 4) else [0]
+    for _ in range(r.range(0, 2)):
+        inp = [_letters_cov(r, k) for _ in range(r.range(1, 3))]
+        sub = {"format": 3, "backtrack": [_letters_cov(r, k, 1, 4) for _ in range(r.range(0, 2))], "coverages": inp,
+               "lookahead": [_letters_cov(r, k, 1, 4) for _ in range(r.range(0, 2))],
+               "lookups": [(r.below(len(inp)), r.below(nleaf))]}
+        top.append(len(lookups))
+        lookups.append({"type": 6, "flag": 0, "subtables": [sub]})
+    order = r.shuffle(top)
+    tags = r.sample(sorted(set(SYNTH_TAGS)), r.range(1, 2))
+    feats = []
+    for j, t in enumerate(tags):
+        mine = [x for i, x in enumerate(order) if i % len(tags) == j]
+        if mine:
+            feats.append({"tag": t, "lookups": mine})
+    rec["gsub"] = {"features": feats, "lookups": lookups}
+    return rec, alpha, k
+
+
+def di_groups(r, count, prefix="D"):
+    groups = []
+    while len(groups) < count:
+        rec, alpha, k = di_recipe(r)
+        try:
+            hx = fontbuild.hexfont(rec)
+        except fontbuild.FontBuildError:
+            continue
+        first, script, native = ALPHABETS[alpha]
+        fid = f"{prefix}{len(groups)}"
+        c = SynthCase()
+        c.name, c.font, c.index, c.text = fid, f"synthetic:{fid}", 0, ""
+        c.dir, c.script, c.lang, c.flags, c.level, c.feats = None, script, None, 0, 0, []
+        c.pre, c.post, c.extra, c.opts = "", "", [], ""
+        g = {"fid": fid, "reg": f"font {fid} {hx}", "cases": [c], "alphabet": [chr(first + j) for j in range(k)], "aat": False,
+             "synthetic": True, "profile": "default-ignorables", "recipe": rec, "native": native,
+             "has_space": 0x20 in rec["cmap"], "patterns": di_patterns(rec)}
+        g.update(recipe_traits(rec))
+        groups.append(g)
+    return groups
+
+
+def di_patterns(rec):
+    """glyph sequences the font's lookups look for: every ligature (first glyph + components) and one instance of
+    every chaining-context input sequence (with its backtrack before and lookahead after it)"""
+    pats = []
+    for lk in rec["gsub"]["lookups"]:
+        for st in lk["subtables"]:
+            if lk["type"] == 4:
+                for g, ls in zip(fontbuild.coverage_order(st["coverage"]), st["ligsets"]):
+                    for lig in ls:
+                        pats.append([g] + list(lig["components"]))
+            elif lk["type"] == 6 and st.get("format") == 3:
+                pats.append([c[0] for c in st["backtrack"][::-1]] + [c[-1] for c in st["coverages"]] + [c[0] for c in st["lookahead"]])
+    return pats
+
+
+def make_di_shaping(r, g, flags, preserve=4, remove=8):
+    """chunks of: a random letter; a sequence one of the font's lookups looks for (di_patterns) — whole, or only its
+    beginning, or with a default ignorable put inside it; default ignorables (also several in a row) after any chunk and
+    sometimes first.  So ignorables stand inside and right after ligature / context starts.  Mostly the script's own
+    direction, sometimes forced; PRESERVE / REMOVE_DEFAULT_IGNORABLES sometimes"""
+    inv = {gid: cp for cp, gid in g["recipe"]["cmap"].items()}
+    pats = [p for p in (g.get("patterns") or []) if all(x in inv for x in p)]
+    t = []
+    di = lambda: chr(r.choice(DEFAULT_IGNORABLES))
+    for _ in range(r.range(2, 5)):
+        k = r.below(5)
+        if k < 2 or not pats:
+            t.append(r.choice(g["alphabet"]))
+        else:
+            p = [chr(inv[x]) for x in r.choice(pats)]
+            if k == 2:
+                t += p
+            elif k == 3:
+                t += p[:r.range(1, len(p))]
+            else:
+                a = r.range(1, max(1, len(p) - 1))
+                t += p[:a] + [di()] + p[a:]
+        while r.chance(1, 3):
+            t.append(di())
+    if r.chance(1, 6):
+        t.insert(0, di())
+    t = t[:20]
+    s = Shaping()
+    s.g = g
+    s.case = g["cases"][0]
+    s.text = "".join(t)
+    s.clusters = rand_clusters(r, len(s.text), False)
+    s.req_dir = r.choice([g["native"]] * 6 + ["l", "r", "t", "b"])
+    s.dir = s.req_dir
+    s.script = s.case.script
+    s.flags = flags | r.choice([0, 3, 3, 3]) | r.choice([0, 0, 0, 0, preserve, remove])
+    s.level = r.choice((0, 1))
+    s.extra = []
+    s.pre, s.post = "", ""
+    s.subset = None
+    s.line = None
+    return s
+
+
+def di_known_class(s, kind="break"):
+    return "reversed" if shaped_reversed(s) else None
+
+
+# ------------------------------------------------------------------------------------------------
 # U+2044 FRACTION SLASH: ot_shape.rs::setup_masks_fraction turns <digits> U+2044 <digits> into numerator / fraction /
 # denominator feature ranges.  Whether a digit is shaped as part of a fraction depends on what stands on the other
 # side of the slash, so the boundaries around a slash with digits on at most one side, and the outer ends of a full
